@@ -57,10 +57,17 @@ def run(ctx) -> None:
     ctx.rule("C15.R2", "TrackedDfg.add builds the node by add_op(com.op, *wires, metadata=metadata) with ints replaced by tracked wires in order", floor=3)
     ctx.rule("C15.R3", "after the node exists each integer argument's index is rebound to the new node's output at the argument's position", floor=2)
     ctx.rule("C15.R4", "tracked is an append-only list: untrack sets None, no removal; outputs filter None in index order; bad indices raise IndexError", floor=7)
+    r1_forwarding(ctx)
+    tracked_add_rules(ctx)
+    tracked_index_rules(ctx)
+    from .. import lints
+    lints.arm(ctx)
+
+
+def tracked_add_rules(ctx, R2="C15.R2", R3="C15.R3") -> None:
     prog = ctx.program
     td = prog.cls(TD)
     file = td.module.path
-    r1_forwarding(ctx)
     nf = NF(prog)
     # ---- R2
     add = td.methods.get("add")
@@ -84,20 +91,20 @@ def run(ctx) -> None:
     starred = [isinstance(a, ast.Starred) for a in call.args[1:]]
     want_wires = nf.ev(ast.parse(f"(self.tracked_wire(inc) if isinstance(inc, int) else inc for inc in {com}.incoming)", mode="eval").body, env)
     ok = a0 == ("attr", sym(com), "op") and len(rest) == 1 and starred == [True] and rest[0] == want_wires
-    ctx.check(ok, "C15.R2", "TrackedDfg.add: node construction", file, call.lineno,
+    ctx.check(ok, R2, "TrackedDfg.add: node construction", file, call.lineno,
               "the node must be created by add_op(com.op, *wires) where wires are com.incoming with each int replaced by the wire currently tracked at it, in order", call,
               expected=f"add_op({com}.op, *{show(want_wires)})", found=f"add_op({show(a0) if a0 else ''}, " + ", ".join(show(r) for r in rest) + ")")
     # keyword arguments forwarded like the base does
     bkw = {k.arg: u(k.value) for k in bcall.keywords}
     kw = {k.arg: u(k.value) for k in call.keywords}
-    ctx.check(kw == bkw, "C15.R2", "TrackedDfg.add: same keyword arguments as Dfg.add", file, call.lineno,
+    ctx.check(kw == bkw, R2, "TrackedDfg.add: same keyword arguments as Dfg.add", file, call.lineno,
               f"Dfg.add forwards {bkw} to add_op; the tracked override must forward the same (metadata given for the node is otherwise lost)", call,
               expected=str(bkw), found=str(kw))
     tw = td.methods.get("_to_wires")
     if tw is not None:
         t, _ = nf.method_nf(td, "_to_wires")
         want, _ = nf.expr_nf("(self.tracked_wire(inc) if isinstance(inc, int) else inc for inc in in_wires)", td, extra={"in_wires": sym("in_wires")})
-        ctx.check(t == want, "C15.R2", "TrackedDfg._to_wires", file, tw.lineno, "ints denote the wire tracked at that index, wires denote themselves, order preserved", tw,
+        ctx.check(t == want, R2, "TrackedDfg._to_wires", file, tw.lineno, "ints denote the wire tracked at that index, wires denote themselves, order preserved", tw,
                   expected=show(want), found=show(t))
     # ---- R3
     loops = [n for n in real_body(add) if isinstance(n, ast.For)]
@@ -122,15 +129,22 @@ def run(ctx) -> None:
             guard_ok = any(u(g.stmt[t]) == f"isinstance({wv}, int)" for t in tests)
             skip_ok = EXIT in g.reachable(0, avoid={stores[0]})     # non-ints skip the store
             ok = idx_src == wv and val_ok and guard_ok and skip_ok
-        ctx.check(ok, "C15.R3", "TrackedDfg.add: rebinding", file, lp.lineno,
+        ctx.check(ok, R3, "TrackedDfg.add: rebinding", file, lp.lineno,
                   "for each position p whose argument is an int i, tracked[i] must become the new node's output p; other arguments are skipped", lp)
         nodevar_assign = [s for s in real_body(add) if isinstance(s, ast.Assign) and call in list(ast.walk(s))]
         after = bool(nodevar_assign) and real_body(add).index(nodevar_assign[0]) < real_body(add).index(lp)
-        ctx.check(after, "C15.R3", "TrackedDfg.add: rebinding after creation", file, lp.lineno, "indices are rebound only after the node has been wired with the old wires", lp)
+        ctx.check(after, R3, "TrackedDfg.add: rebinding after creation", file, lp.lineno, "indices are rebound only after the node has been wired with the old wires", lp)
     else:
-        ctx.fail("C15.R3", "TrackedDfg.add: rebinding", file, add.lineno, "no rebinding loop over enumerate(com.incoming)", add)
+        ctx.fail(R3, "TrackedDfg.add: rebinding", file, add.lineno, "no rebinding loop over enumerate(com.incoming)", add)
     rets = [r for r in ast.walk(add) if isinstance(r, ast.Return)]
-    ctx.check(len(rets) == 1 and u(rets[0].value) == "n", "C15.R3", "TrackedDfg.add: returns the node", file, add.lineno, "", add)
+    ctx.check(len(rets) == 1 and u(rets[0].value) == "n", R3, "TrackedDfg.add: returns the node", file, add.lineno, "", add)
+
+
+def tracked_index_rules(ctx) -> None:
+    prog = ctx.program
+    td = prog.cls(TD)
+    file = td.module.path
+    nf = NF(prog)
     # ---- R4
     writers = {}
     for name, fn in td.methods.items():
@@ -193,6 +207,9 @@ def run(ctx) -> None:
     for name, want_src in (("track_wires", "return [self.track_wire(w) for w in wires]"), ("track_inputs", "return self.track_wires(self.inputs())")):
         m = td.methods.get(name)
         ctx.check(m is not None and u(real_body(m)[-1]) == want_src, "C15.R4", f"TrackedDfg.{name}", file, m.lineno if m else 1, "", m)
+
+
+
 
 
 # ---------------------------------------------------------------------------------------
